@@ -48,3 +48,78 @@ pub fn cmd_sites(args: &[String]) -> i32 {
     out.flush().unwrap();
     0
 }
+
+/// sweep-ciphers <out.ndjson>: all 65536 ids through the four id routes; every registry name and
+/// ~20 perturbations of each through the two name routes.
+pub fn cmd_ciphers(args: &[String]) -> i32 {
+    use core::convert::TryFrom;
+    use tls_parser::{TlsCipherSuite, TlsCipherSuiteID, CIPHERS};
+    let mut out = BufWriter::new(std::fs::File::create(&args[0]).expect("create"));
+    let (mut present, mut absent, mut disagree) = (0u32, 0u32, 0u32);
+    let mut names: Vec<String> = Vec::new();
+    for id in 0..=65535u16 {
+        let r1 = TlsCipherSuite::from_id(id);
+        let r2 = <&TlsCipherSuite>::try_from(id).ok();
+        let r3 = <&TlsCipherSuite>::try_from(TlsCipherSuiteID(id)).ok();
+        let r4 = TlsCipherSuiteID(id).get_ciphersuite();
+        let same = |a: Option<&'static TlsCipherSuite>, b: Option<&'static TlsCipherSuite>| match (a, b) {
+            (None, None) => true,
+            (Some(x), Some(y)) => core::ptr::eq(x, y) || x == y,
+            _ => false,
+        };
+        let agree = same(r1, r2) && same(r1, r3) && same(r1, r4);
+        if !agree { disagree += 1; }
+        match r1.or(r2).or(r3).or(r4) {
+            None => absent += 1,
+            Some(c) => {
+                present += 1;
+                names.push(c.name.to_string());
+                writeln!(out, "{}", json!({"kind": "row", "hex": format!("{:04x}", id), "name": c.name,
+                    "kx": format!("{:?}", c.kx), "au": format!("{:?}", c.au), "enc": format!("{:?}", c.enc), "mode": format!("{:?}", c.enc_mode),
+                    "bits": c.enc_size, "mac": format!("{:?}", c.mac), "macbits": c.mac_size, "prf": format!("{:?}", c.prf),
+                    "keybytes": c.enc_key_size(),
+                    "maclen": c.mac_length(), "blocksize": c.enc_block_size(),
+                    "routes_agree": agree, "carries_id": c.id.0 == id})).unwrap();
+            }
+        }
+    }
+    let _ = CIPHERS.len();
+    writeln!(out, "{}", json!({"kind": "summary", "present": present, "absent": absent, "route_disagreements": disagree, "map_len": CIPHERS.len()})).unwrap();
+    // name queries
+    let mut qs: Vec<String> = vec!["".into(), "TLS".into(), "TLS_".into(), "tls_null_with_null_null".into(), " ".into()];
+    for (k, n) in names.iter().enumerate() {
+        qs.push(n.clone());
+        qs.push(n[..n.len() - 1].to_string());
+        qs.push(n[1..].to_string());
+        qs.push(format!("{}X", n));
+        qs.push(format!("{} ", n));
+        qs.push(format!(" {}", n));
+        qs.push(n.to_lowercase());
+        qs.push(format!("{}_SHA", n));
+        qs.push(format!("{}_8", n));
+        if let Some(p) = n.rfind('_') { qs.push(n[..p].to_string()); }
+        let mut flipped: Vec<char> = n.chars().collect();
+        let pos = (k * 7) % flipped.len();
+        flipped[pos] = if flipped[pos].is_ascii_uppercase() { flipped[pos].to_ascii_lowercase() } else { flipped[pos].to_ascii_uppercase() };
+        qs.push(flipped.into_iter().collect());
+        qs.push(n.replace("_WITH_", "_"));
+        qs.push(n.replace("128", "256"));
+        qs.push(n.replace("SHA256", "SHA384"));
+        qs.push(n.replace("TLS_", "SSL_"));
+        qs.push(n.replace("_", "-"));
+        qs.push(format!("{}\t", n));
+        qs.push(n.replace("CBC", "GCM"));
+        qs.push(n.replace("ECDHE", "ECDH"));
+        qs.push(n.replace("DHE", "DH"));
+    }
+    qs.sort();
+    qs.dedup();
+    for s in &qs {
+        let a = TlsCipherSuite::from_name(s).map(|c| format!("{:04x}", c.id.0)).unwrap_or_else(|| "none".into());
+        let b = <&TlsCipherSuite>::try_from(s.as_str()).ok().map(|c| format!("{:04x}", c.id.0)).unwrap_or_else(|| "none".into());
+        writeln!(out, "{}", json!({"kind": "name", "s": s, "from_name": a, "try_from": b})).unwrap();
+    }
+    out.flush().unwrap();
+    eprintln!("sweep-ciphers: {} present, {} absent, {} name queries", present, absent, qs.len());
+    0
+}
